@@ -94,6 +94,12 @@ def gen_cases(rng, tier):
                 cases.append({"tool": tool, "launcher": la, "scenario": "list", "into": False, "verbose": rng.random() < 0.5, "sub": rng.choice(["", "arc/"])})
             else:
                 cases.append({"tool": tool, "launcher": la, "scenario": "run"})
+    # the four actions again with the archive's extension spelled in upper and mixed case
+    more = []
+    for c in cases:
+        if c["tool"] in ARCHIVERS and c["scenario"] in ("create", "add", "list", "extract") and not c.get("into"):
+            more.append(dict(c, ext_spelling=rng.choice(["upper", "mixed"])))
+    cases += more
     # every rejected archiver command line again, with an --into naming a directory that does not exist yet, before / between / after the other arguments
     more = []
     for c in cases:
@@ -176,6 +182,10 @@ def run_case(case, ctx):
         tool, la, sc = case["tool"], case["launcher"], case["scenario"]
         bad = dis = None
         ext = ARCHIVERS.get(tool)
+        if ext and case.get("ext_spelling") == "upper":
+            ext = ext.upper()       # the extension test is documented as case insensitive: GAME.SD is the archive GAME.SD, nothing else
+        elif ext and case.get("ext_spelling") == "mixed":
+            ext = ext[:1] + ext[1:2].upper() + ext[2:]
         if sc == "help":
             before = snapshot(root)
             st, out, err = launch(tool, la, [case["variant"]], root)
@@ -260,7 +270,13 @@ def run_case(case, ctx):
                 elif [k for k in new if not k.endswith("/")] != want:
                     bad = {"create wrote": new, "want": want, "into": bool(case.get("into"))}
             else:
-                build_archive(tool, root, rel)
+                try:
+                    build_archive(tool, root, rel)
+                except RuntimeError as e:
+                    # creating the archive at the designated path is part of the property: no archive there is a violation, not a harness matter
+                    bad = {"create did not produce the archive at the designated path": rel, "why": str(e)[-200:], "tree": sorted(snapshot(root))[:6]}
+                    sig = [tool, la, sc, "prepare"]
+                    return CaseResult(True, False, {"disagreement": None, "oracle": bad}, sig, True)
                 os.remove(os.path.join(root, "one.bas")) if sc != "add" else None
                 os.remove(os.path.join(root, "two.txt"))
                 arch0 = open(os.path.join(root, rel), "rb").read()
@@ -317,7 +333,7 @@ def run_case(case, ctx):
                                 if again.get(os.path.normpath(p_)) != c_:
                                     bad = {"second extraction did not overwrite": os.path.normpath(p_), "len": [len(again.get(os.path.normpath(p_)) or b""), len(c_)]}
                                     break
-        sig = [tool, la, sc] + ([str(case.get("into"))] if "into" in case else []) + (["into:" + case["into_pos"]] if case.get("into_pos") else [])
+        sig = [tool, la, sc] + ([str(case.get("into"))] if "into" in case else []) + (["into:" + case["into_pos"]] if case.get("into_pos") else []) + (["ext:" + case["ext_spelling"]] if case.get("ext_spelling") else [])
         skipped = dis == "unmodelled"
         if skipped:
             dis = None
